@@ -16,7 +16,7 @@ SPEC = {
                 "PyMatterSim.utils.funcs:alpha2factor"],
     "must_reach": ["PyMatterSim.dynamic.dynamics:Dynamics.relaxation", "PyMatterSim.dynamic.dynamics:Dynamics.sq4",
                    "PyMatterSim.dynamic.dynamics:LogDynamics.relaxation", "PyMatterSim.dynamic.dynamics:cage_relative"],
-    "floors": {"relaxation": 3000, "chi4": 300, "log_relaxation": 500, "wrapped_vs_unwrapped": 40, "sq4": 150,
+    "floors": {"relaxation": 3000, "chi4": 300, "log_relaxation": 500, "wrapped_vs_unwrapped": 40, "sq4": 150, "trajectories_in_other_units_of_length": 15,
                "cage_relative_cases": 20, "fast_mode_cases": 20, "selection_cases": 20, "object_history": 40},
     "rule": ("trajectories {ballistic, diffusive, arrested, mixed} x T 2..8 x N 3..40 x {2D,3D} x {xu, x, both} x diameter maps "
              "K 1..3 x cutoff factor x {slow,fast} x selection {none, constant-count, varying-count} x neighbour file {none, own "
@@ -148,6 +148,16 @@ def one_case(ctx, rng, wd, force_N=None, force_T=None):
     if rng.random() < 0.3:
         diam_map = {1: 1.0, 2: 1.0, 3: 1.0}
     diam = np.array([diam_map[t] for t in types])
+    unit = 1.0
+    if rng.random() < 0.15 and not force_N and not force_T:
+        # the same trajectory in another unit of length (SI metres: displacements of 1e-10, mean-squared displacements of 1e-20; fm):
+        # every dimensionless column is unchanged, the msd scales with the square of the unit
+        unit = float(rng.choice([1e-9, 1e-10, 1e5]))
+        L, lo, XU = L * unit, lo * unit, XU * unit
+        X = lo + np.mod(XU - lo, L)
+        diam_map = {k: v * unit for k, v in diam_map.items()}
+        diam = np.array([diam_map[t] for t in types])
+        ctx.count("trajectories_in_other_units_of_length")
     a = float(rng.uniform(0.1, 0.6))
     slow = bool(rng.random() < 0.6)
     mode = str(rng.choice(["xu", "x", "both"]))
@@ -312,7 +322,9 @@ def one_case(ctx, rng, wd, force_N=None, force_T=None):
             ctx.close("wrapped_vs_unwrapped", r1.values, r2.values, "Dynamics.relaxation/wrapped_vs_unwrapped", rtol=1e-9, atol=1e-10,
                       what="wrapped run vs unwrapped run", data=info, n=1)
     # four-point structure factor
-    if variant == "linear" and T >= 3 and rng.random() < 0.6:
+    # (not in other units of length: the library groups the wave vectors by |q| rounded to a fixed number of decimals -- documented for S(q),
+    # C04 -- so the row structure of S4 is tied to the usual units; C06 pins the values, not that grouping)
+    if variant == "linear" and T >= 3 and unit == 1.0 and rng.random() < 0.6:
         lag = int(rng.integers(1, T - 1))
         tchar = lag * step * dt * float(rng.uniform(0.8, 1.2) if step * dt > 0 else 1)
         n_t = round(tchar / ((ts[1] - ts[0]) * dt))
